@@ -181,7 +181,7 @@ func property(t *rapid.T, mode string, sink func([]byte)) {
 		p.Attrs = genAttrs(t)
 		p.ZeroPC = rapid.IntRange(0, 4).Draw(t, "zeroPC") == 0
 		p.Loose = rapid.IntRange(0, 3).Draw(t, "probeIsAnOrdinaryCallWithLoosePairs") == 0
-		if p.Sev == slog.AlwaysLevel && strings.Trim(p.Msg, " \t\r\n") == "" {
+		if p.Sev == slog.AlwaysLevel && vlib.LooksBlank(p.Msg) {
 			p.Msg += "x"
 		}
 		flags := vlib.BaseFlags
